@@ -719,16 +719,20 @@ class Vibrability(Unit):
     timeout = 20
 
     def cases(self):
-        return [f"d={d}/{o}" for d in (2, 3) for o in ("nofile", "file")]
+        # K free: any number of modes; square: K = d*N (all modes of a Hessian: rows and columns are both indexable by d*i+c)
+        return [f"d={d}/{o}" for d in (2, 3) for o in ("nofile", "file", "square")]
 
     def setup(self, ctx, case):
         d = int(case[2])
         N, K = ctx.int("N"), ctx.int("K")
         ctx.assume(N >= 1)
-        ctx.assume(K >= 0)
+        if case.endswith("square"):
+            K = A.simp(sv.mul(d, N))
+        else:
+            ctx.assume(K >= 0)
         W = ctx.array("omega", (K,), "float", origin="argument eigenfrequencies")
         EV = ctx.array("ev", (A.simp(sv.mul(d, N)), K), "float", origin="argument eigenvectors")
-        out = "" if case.endswith("nofile") else "vibrability.npy"
+        out = "vibrability.npy" if case.endswith("/file") else ""
         return [W, EV, N], ({"outputfile": out} if out else {}), dict(d=d, N=N, K=K, W=W, EV=EV, out=out, watch=[W.sid, EV.sid])
 
     def clause_names(self, case):
@@ -782,7 +786,7 @@ def _replay_vib(case, clause, model, seed):
             first = k == 0 and model.get("N") is not None
             if first:
                 N = max(1, min(int(_fr(model.get("N"), 2)), 12))
-                K = max(0, min(int(_fr(model.get("K"), 2)), 12))
+                K = max(0, min(int(_fr(model.get("K"), 2)), 12)) if not case.endswith("square") else d * N
                 ev = _arr_from_model(model, "ev", (d * N, max(K, 1)), rng)[:, :K]
                 om = np.array([rng.uniform(0.5, 3) for _ in range(K)])
                 ents, _ = _func_entries(model, "omega")
@@ -792,7 +796,7 @@ def _replay_vib(case, clause, model, seed):
                         om[e[0]] = v
             else:
                 N = rng.choice([1, 2, 3, 7])
-                K = rng.choice([0, 1, 2, d * N])
+                K = rng.choice([0, 1, 2, d * N]) if not case.endswith("square") else d * N
                 ev = np.array([[rng.uniform(-1, 1) for _ in range(K)] for _ in range(d * N)]).reshape(d * N, K)
                 om = np.array([rng.uniform(0.3, 3) for _ in range(K)])
             keep_ev, keep_om = ev.copy(), om.copy()
@@ -825,6 +829,308 @@ def _replay_vib(case, clause, model, seed):
     finally:
         shutil.rmtree(tmp, ignore_errors=True)
     return {"ran": True, "failed": False, "searched": tried, "detail": "real code satisfies every clause on the model inputs and the seeded inputs"}
+
+
+# ================================================================================================
+# vector_decomposition_sq
+
+CONDITIONAL_SQ = "PyMatterSim.static.sq.conditional_sq"
+
+
+def conditional_sq_contract(interp, args, kwargs):
+    """Callee contract of PyMatterSim.static.sq.conditional_sq(snapshot, qvector, condition) for a float vector condition of
+    shape (N, d) (the branch `len(condition.shape) > 1`), as far as C15 needs it (the full contract — the values of the
+    columns as density-mode sums — is C13's):
+      requires  qvector of shape (Q, d), condition of shape (nparticle, d), positions of shape (nparticle, d);
+      ensures   a pair (frame, averaged frame); the frame has Q rows and the columns, in this order,
+                q0..q<d-1> (float), q (float, >= 0), Sq (float), FFT0..FFT<d-1> (complex), all rounded to 8 decimals.
+    The column values are left arbitrary (fresh uninterpreted functions of the row), so everything proved about the split
+    holds for whatever transform conditional_sq returns."""
+    from pyvc import pandas_model as PM
+    from pyvc.state import cur
+    names = ["snapshot", "qvector", "condition"]
+    vals = dict(zip(names, args))
+    vals.update(kwargs)
+    snap, qv, cond = vals["snapshot"], vals["qvector"], vals["condition"]
+    st = cur()
+    okq = isinstance(qv, A.Arr) and qv.ndim == 2 and A.dim_conc(qv.shape[1])
+    okc = isinstance(cond, A.Arr) and cond.ndim == 2 and cond.dtype == "float"
+    st.require(bool(okq and okc), "call:conditional_sq:pre(qvector (Q,d), float condition (N,d))")
+    if not (okq and okc):
+        raise sv.EngineError("conditional_sq contract: argument shapes")
+    d = qv.shape[1]
+    pos = interp.getattr(snap, "positions")
+    A.require_dim_eq(cond.shape[1], d, "call:conditional_sq:pre(condition-columns)")
+    A.require_dim_eq(pos.shape[1], d, "call:conditional_sq:pre(position-columns)")
+    A.require_dim_eq(cond.shape[0], pos.shape[0], "call:conditional_sq:pre(condition-rows)")
+    A.require_dim_eq(interp.getattr(snap, "nparticle"), pos.shape[0], "call:conditional_sq:pre(nparticle)")
+    Q = qv.shape[0]
+    calls = getattr(interp, "c15_csq_calls", None)
+    if calls is None:
+        calls = interp.c15_csq_calls = []
+    tag = f"csq{len(calls)}"
+    I, Rr = z3.IntSort(), z3.RealSort()
+    fq = z3.Function(f"{tag}_qc", I, I, Rr)
+    fn_ = z3.Function(f"{tag}_q", I, Rr)
+    fs = z3.Function(f"{tag}_Sq", I, Rr)
+    fre = z3.Function(f"{tag}_FFTre", I, I, Rr)
+    fim = z3.Function(f"{tag}_FFTim", I, I, Rr)
+    qc = lambda n, c: sv.SV(fq(sv.znum(n), sv.znum(c)))
+    qn = lambda n: sv.absv(sv.SV(fn_(sv.znum(n))))          # a norm: non-negative
+    Sq = lambda n: sv.SV(fs(sv.znum(n)))
+    F = lambda n, c: sv.Cx(sv.SV(fre(sv.znum(n), sv.znum(c))), sv.SV(fim(sv.znum(n), sv.znum(c))))
+    cols, order = {}, []
+    for c in range(d):
+        cols[f"q{c}"] = A.new_arr((Q,), lambda idx, c=c: qc(idx[0], c), "float")
+        order.append(f"q{c}")
+    cols["q"] = A.new_arr((Q,), lambda idx: qn(idx[0]), "float")
+    cols["Sq"] = A.new_arr((Q,), lambda idx: Sq(idx[0]), "float")
+    order += ["q", "Sq"]
+    for c in range(d):
+        cols[f"FFT{c}"] = A.new_arr((Q,), lambda idx, c=c: F(idx[0], c), "complex")
+        order.append(f"FFT{c}")
+    df = PM.new_df(cols, order, Q)
+    gb = PM.GroupBy({"Sq": cols["Sq"]}, ("q", cols["q"]), ["Sq"])
+    ave = PM.group_mean_frame(gb)
+    calls.append(dict(qc=qc, q=qn, Sq=Sq, F=F, Q=Q, d=d))
+    return (df, ave)
+
+
+def _cabs2(v):
+    v = sv.as_cx(v)
+    return sv.add(_sq(v.re), _sq(v.im))
+
+
+def split_spec(qh, F):
+    """documented split of a complex vector F along the real direction qh:  L = qh (qh . F),  T = F - L"""
+    dotp = 0
+    for a, b in zip(qh, F):
+        dotp = sv.add(dotp, sv.mul(a, b))
+    L = [sv.mul(a, dotp) for a in qh]
+    T = [sv.sub(f, l) for f, l in zip(F, L)]
+    return dotp, L, T
+
+
+def _cx_eq(a, b):
+    a, b = sv.as_cx(a), sv.as_cx(b)
+    return sv.and_(sv.cmp("==", a.re, b.re), sv.cmp("==", a.im, b.im))
+
+
+class VectorDecompositionSq(Unit):
+    module = MOD
+    qualname = "vector_decomposition_sq"
+    prop = "C15"
+    timeout = 6       # the loop-step obligation (mixed guards + rational functions) is cvc5's; z3 gives up after this budget
+    summaries = {CONDITIONAL_SQ: conditional_sq_contract}
+
+    def cases(self):
+        return [f"d={d}/{o}" for d in (2, 3) for o in ("nofile", "file", "file.csv")]
+
+    def setup(self, ctx, case):
+        d = int(case[2])
+        N, Q = ctx.int("N"), ctx.int("Q")
+        ctx.assume(N >= 1)
+        ctx.assume(Q >= 1)
+        R = ctx.array("r", (N, d), "float", origin="snapshot.positions")
+        Lb = ctx.array("boxlength", (d,), "float", origin="snapshot.boxlength")
+        V = ctx.array("v", (N, d), "float", origin="argument vector")
+        QV = ctx.array("qvector", (Q, d), "int", origin="argument qvector")
+        snap = ctx.obj("PyMatterSim.reader.reader_utils", "SingleSnapshot",
+                       dict(timestep=0, nparticle=N, particle_type=None, positions=R, boxlength=Lb, boxbounds=None, realbounds=None, hmatrix=None))
+        out = {"nofile": "", "file": "split", "file.csv": "split.csv"}[case.split("/")[1]]
+        return [snap, QV, V], ({"outputfile": out} if out else {}), dict(d=d, N=N, Q=Q, out=out, watch=[R.sid, Lb.sid, V.sid, QV.sid])
+
+    def clause_names(self, case):
+        return ["shape:frames-and-columns", "a:L_FFT=round8(qhat(qhat.F))", "b:T_FFT=round8(F-L)", "c:Sq_L=round8(|L|^2),Sq_T=round8(|T|^2)",
+                "d:transform-columns-kept", "e:L-parallel-to-q", "e:L+T=F", "e:qhat.T=(1-|qhat|^2)(qhat.F)",
+                "e:|L|^2+|T|^2-|F|^2=2(|qhat|^2-1)|qhat.F|^2", "f:average-over-equal-q", "g:csv-file", "frame:inputs-not-written"]
+
+    def ensures(self, ctx, case, inp, out):
+        from pyvc import pandas_model as PM
+        from pyvc.interp import Ref
+        d, Q = inp["d"], inp["Q"]
+        res = out.value
+        calls = getattr(ctx.interp, "c15_csq_calls", [])
+        ok = isinstance(res, tuple) and len(res) == 2 and all(isinstance(x, Ref) and x.kind == "df" for x in res) and len(calls) >= 1
+        want_order = [f"q{c}" for c in range(d)] + ["q", "Sq"] + [f"FFT{c}" for c in range(d)] + [f"T_FFT{c}" for c in range(d)] + ["Sq_T"] \
+            + [f"L_FFT{c}" for c in range(d)] + ["Sq_L"]
+        if ok:
+            fr, av = PM.df_content(res[0]), PM.df_content(res[1])
+            ok = fr["order"] == want_order and A.dim_eq_syntactic(fr["n"], Q) and av["order"] == ["q", "Sq", "Sq_T", "Sq_L"]
+        yield "shape:frames-and-columns", bool(ok)
+        if not ok:
+            return
+        cs = calls[-1]
+        n = ctx.int("n")
+        qn = cs["q"](n)
+        inr = sv.and_(sv.cmp(">=", n, 0), sv.cmp("<", n, Q), sv.cmp("!=", qn, 0))
+        qh = [sv.div(cs["qc"](n, c), qn) for c in range(d)]
+        F = [cs["F"](n, c) for c in range(d)]
+        dotp, L, T = split_spec(qh, F)
+        r8 = lambda v: sv.round_dec(v, 8)
+        col = lambda name: fr["cols"][name].get((n,))
+        RO = {"ring_only": True}
+        yield "a:L_FFT=round8(qhat(qhat.F))", sv.implies(inr, sv.and_(*[_cx_eq(col(f"L_FFT{c}"), r8(L[c])) for c in range(d)]))
+        yield "b:T_FFT=round8(F-L)", sv.implies(inr, sv.and_(*[_cx_eq(col(f"T_FFT{c}"), r8(T[c])) for c in range(d)]))
+        SL = _sum([_cabs2(x) for x in L])
+        ST = _sum([_cabs2(x) for x in T])
+        SF = _sum([_cabs2(x) for x in F])
+        yield "c:Sq_L=round8(|L|^2),Sq_T=round8(|T|^2)", sv.implies(inr, sv.and_(sv.cmp("==", col("Sq_L"), r8(SL)), sv.cmp("==", col("Sq_T"), r8(ST))))
+        kept = [sv.cmp("==", col(f"q{c}"), r8(cs["qc"](n, c))) for c in range(d)] + [sv.cmp("==", col("q"), r8(qn)), sv.cmp("==", col("Sq"), r8(cs["Sq"](n)))] \
+            + [_cx_eq(col(f"FFT{c}"), r8(F[c])) for c in range(d)]
+        yield "d:transform-columns-kept", sv.implies(sv.and_(sv.cmp(">=", n, 0), sv.cmp("<", n, Q)), sv.and_(*kept)), RO
+        # ---- the identities of the documented split (statement: L parallel to q, T orthogonal to q, L + T = F, S = S_L + S_T)
+        qq = _sum([_sq(x) for x in qh])                      # |qhat|^2 (= 1 up to the 8-decimal rounding of the q columns)
+        par = []
+        for a in range(d):
+            for b in range(a + 1, d):
+                par.append(_cx_eq(sv.sub(sv.mul(L[a], cs["qc"](n, b)), sv.mul(L[b], cs["qc"](n, a))), 0))
+        yield "e:L-parallel-to-q", sv.implies(inr, sv.and_(*par)), RO
+        yield "e:L+T=F", sv.implies(inr, sv.and_(*[_cx_eq(sv.add(L[c], T[c]), F[c]) for c in range(d)])), RO
+        qT = 0
+        for a, b in zip(qh, T):
+            qT = sv.add(qT, sv.mul(a, b))
+        yield "e:qhat.T=(1-|qhat|^2)(qhat.F)", sv.implies(inr, _cx_eq(qT, sv.mul(sv.sub(1, qq), dotp))), RO
+        yield ("e:|L|^2+|T|^2-|F|^2=2(|qhat|^2-1)|qhat.F|^2",
+               sv.implies(inr, sv.cmp("==", sv.sub(sv.add(SL, ST), SF), sv.mul(sv.mul(2, sv.sub(qq, 1)), _cabs2(dotp)))), RO)
+        # ---- averaged frame: one row per distinct (rounded) q, each S column the mean over the rows with that q
+        meta = out.state.heap[res[1].sid].meta.get("groupby")
+        if not meta or not A.dim_eq_syntactic(meta["n"], Q):
+            yield "f:average-over-equal-q", False
+        else:
+            g = ctx.int("g")
+            G, K = meta["G"], meta["K"]
+            key = lambda t: fr["cols"]["q"].get((t,))
+            goals = [sv.cmp("==", av["cols"]["q"].get((g,)), K(g)), sv.cmp("==", meta["keys"]((n,)), key(n))]
+            for nm in ("Sq", "Sq_T", "Sq_L"):
+                num = Sum(0, Q, lambda t, nm=nm: sv.ite(sv.cmp("==", key(t), K(g)), lambda: fr["cols"][nm].get((t,)), 0))
+                den = Sum(0, Q, lambda t: sv.ite(sv.cmp("==", key(t), K(g)), 1, 0))
+                goals.append(sv.cmp("==", av["cols"][nm].get((g,)), sv.div(num, den)))
+            yield "f:average-over-equal-q", sv.implies(sv.and_(sv.cmp(">=", g, 0), sv.cmp("<", g, G), sv.cmp(">=", n, 0), sv.cmp("<", n, Q)), sv.and_(*goals))
+        csvs = [t for t in out.state.trace if t and t[0] == "to_csv"]
+        if inp["out"]:
+            good = len(csvs) == 1 and csvs[0][1] == "split.csv" and csvs[0][3] == ["q", "Sq", "Sq_T", "Sq_L"] and csvs[0][4] == "%.8f"
+            if good:
+                g2 = ctx.int("g2")
+                yield "g:csv-file", sv.and_(sv.cmp("==", csvs[0][5], av["n"]),
+                                            *[sv.cmp("==", csvs[0][2][nm].get((g2,)), av["cols"][nm].get((g2,))) for nm in av["order"]])
+            else:
+                yield "g:csv-file", False
+        else:
+            yield "g:csv-file", len(csvs) == 0
+        stores = [e for e in out.state.events if e[0] == "store" and e[1] in inp["watch"]]
+        yield "frame:inputs-not-written", len(stores) == 0
+
+    def replay(self, case, clause, model, seed):
+        return _replay_split(case, clause, model, seed)
+
+
+def _replay_split(case, clause, model, seed):
+    import importlib
+    import os
+    import random
+    import shutil
+    import tempfile
+
+    import numpy as np
+    V = importlib.import_module(MOD)
+    RU = importlib.import_module("PyMatterSim.reader.reader_utils")
+    d = int(case[2])
+    mode = case.split("/")[1]
+    rng = random.Random(seed)
+    tmp = tempfile.mkdtemp(prefix="pyvc-c15-")
+    tried = 0
+    try:
+        for k in range(40):
+            N = rng.choice([1, 2, 5, 30])
+            Lbox = np.array([rng.uniform(4, 9) for _ in range(d)])
+            r = np.array([[rng.uniform(0, Lbox[c]) for c in range(d)] for _ in range(N)])
+            v = np.array([[rng.uniform(-2, 2) for _ in range(d)] for _ in range(N)])
+            if k % 4 == 1:
+                v[:] = [rng.uniform(0.5, 2) for _ in range(d)]
+            qs = set()
+            while len(qs) < rng.choice([1, 3, 6]):
+                q = tuple(rng.randint(-3, 3) for _ in range(d))
+                if any(q):
+                    qs.add(q)
+            if k % 3 == 0:          # equal |q| in different directions (exercises the average)
+                qs |= {tuple(-x for x in q) for q in list(qs)}
+            qvector = np.array(sorted(qs), dtype=int)
+            H = np.diag(Lbox)
+            snap = RU.SingleSnapshot(timestep=0, nparticle=N, particle_type=np.ones(N, dtype=int), positions=r.copy(), boxlength=Lbox.copy(),
+                                     boxbounds=np.column_stack([np.zeros(d), Lbox]), realbounds=None, hmatrix=H)
+            keep_v, keep_q = v.copy(), qvector.copy()
+            base = os.path.join(tmp, f"split{k}")
+            kw = {} if mode == "nofile" else {"outputfile": base if mode == "file" else base + ".csv"}
+            tried += 1
+            inputs = {"positions": r.tolist(), "boxlength": Lbox.tolist(), "vector": keep_v.tolist(), "qvector": keep_q.tolist()}
+            try:
+                fr, av = V.vector_decomposition_sq(snap, qvector, v, **kw)
+            except Exception as ex:
+                return {"ran": True, "failed": True, "searched": tried, "from_model": False, "inputs": inputs, "detail": f"raises {type(ex).__name__}: {ex}"}
+            bad = None
+            want_cols = [f"q{c}" for c in range(d)] + ["q", "Sq"] + [f"FFT{c}" for c in range(d)] + [f"T_FFT{c}" for c in range(d)] + ["Sq_T"] \
+                + [f"L_FFT{c}" for c in range(d)] + ["Sq_L"]
+            if list(fr.columns) != want_cols or len(fr) != len(qvector):
+                bad = f"frame columns {list(fr.columns)} / rows {len(fr)}"
+            else:
+                # independent transform: F_c(q) = N^-1/2 sum_i v_ic exp(-i q.r_i)
+                for n_, qi in enumerate(qvector):
+                    qv = 2 * np.pi * qi / Lbox
+                    ph = np.exp(-1j * (r @ qv))
+                    Fv = (ph[:, None] * keep_v).sum(axis=0) / np.sqrt(N)
+                    qh = qv / np.linalg.norm(qv)
+                    Lv = qh * np.dot(qh, Fv)
+                    Tv = Fv - Lv
+                    tol = 1e-7 * (1 + np.abs(Fv).max())
+                    gotF = np.array([fr[f"FFT{c}"][n_] for c in range(d)])
+                    gotL = np.array([fr[f"L_FFT{c}"][n_] for c in range(d)])
+                    gotT = np.array([fr[f"T_FFT{c}"][n_] for c in range(d)])
+                    if np.abs(gotF - Fv).max() > tol:
+                        bad = f"row {n_}: FFT columns {gotF.tolist()} differ from the transform {Fv.tolist()}"
+                    elif np.abs(gotL - Lv).max() > tol:
+                        bad = f"row {n_}: L_FFT {gotL.tolist()} is not qhat (qhat.F) = {Lv.tolist()}"
+                    elif np.abs(gotT - Tv).max() > tol:
+                        bad = f"row {n_}: T_FFT {gotT.tolist()} is not F - L = {Tv.tolist()}"
+                    elif np.abs(gotL + gotT - gotF).max() > 3e-8:
+                        bad = f"row {n_}: L + T != F"
+                    elif abs(np.dot(qh, gotT)) > tol:
+                        bad = f"row {n_}: qhat . T = {np.dot(qh, gotT)!r} != 0"
+                    elif d == 3 and np.abs(np.cross(qh, gotL)).max() > tol or d == 2 and abs(qh[0] * gotL[1] - qh[1] * gotL[0]) > tol:
+                        bad = f"row {n_}: L is not parallel to q"
+                    elif abs(fr["Sq_L"][n_] - np.sum(np.abs(Lv) ** 2)) > tol * (1 + np.abs(Fv).max()) or abs(fr["Sq_T"][n_] - np.sum(np.abs(Tv) ** 2)) > tol * (1 + np.abs(Fv).max()):
+                        bad = f"row {n_}: Sq_L/Sq_T = {fr['Sq_L'][n_]!r}/{fr['Sq_T'][n_]!r} are not |L|^2/|T|^2 = {np.sum(np.abs(Lv) ** 2)!r}/{np.sum(np.abs(Tv) ** 2)!r}"
+                    elif abs(fr["Sq"][n_] - fr["Sq_L"][n_] - fr["Sq_T"][n_]) > tol * (1 + np.abs(Fv).max()):
+                        bad = f"row {n_}: Sq = {fr['Sq'][n_]!r} != Sq_L + Sq_T = {fr['Sq_L'][n_] + fr['Sq_T'][n_]!r}"
+                    if bad:
+                        break
+            if bad is None:
+                keys = sorted(set(fr["q"].tolist()))
+                if list(av.columns) != ["q", "Sq", "Sq_T", "Sq_L"] or av["q"].tolist() != keys:
+                    bad = f"averaged frame: columns {list(av.columns)}, keys {av['q'].tolist()} (expected ascending distinct q {keys})"
+                else:
+                    for g_, kq in enumerate(keys):
+                        rows = [n_ for n_ in range(len(fr)) if fr["q"][n_] == kq]
+                        for nm in ("Sq", "Sq_T", "Sq_L"):
+                            want = sum(fr[nm][n_] for n_ in rows) / len(rows)
+                            if abs(av[nm][g_] - want) > 1e-9 * max(1.0, abs(want)):
+                                bad = f"averaged {nm} at q = {kq}: {av[nm][g_]!r}, mean over rows {rows} = {want!r}"
+            if bad is None and mode != "nofile":
+                path = base + ".csv"
+                if not os.path.exists(path):
+                    bad = f"csv file {os.path.basename(path)} was not written"
+                else:
+                    import pandas as pd
+                    back = pd.read_csv(path)
+                    if list(back.columns) != ["q", "Sq", "Sq_T", "Sq_L"] or len(back) != len(av) or np.abs(back.values - av.values).max() > 1e-8:
+                        bad = "csv content differs from the returned averaged frame"
+            if bad is None and not (np.array_equal(keep_v, v) and np.array_equal(keep_q, qvector) and np.array_equal(r, snap.positions)):
+                bad = "an input array was modified"
+            if bad:
+                return {"ran": True, "failed": True, "searched": tried, "from_model": False, "inputs": inputs, "detail": bad}
+    finally:
+        shutil.rmtree(tmp, ignore_errors=True)
+    return {"ran": True, "failed": False, "searched": tried, "detail": "real code satisfies every clause on the seeded inputs"}
 
 
 def _replay_nb(qualname, case, clause, model, seed):
@@ -897,7 +1203,7 @@ def _replay_nb(qualname, case, clause, model, seed):
     return {"ran": True, "failed": False, "searched": tried, "detail": "real code satisfies every clause on the model inputs and the seeded inputs"}
 
 
-UNITS = [ParticipationRatio(), LocalAlignment(), PhaseQuotient(), DivergenceCurl(), Vibrability()]
+UNITS = [ParticipationRatio(), LocalAlignment(), PhaseQuotient(), DivergenceCurl(), Vibrability(), VectorDecompositionSq()]
 
 MANIFEST = {
     "text": "",
